@@ -30,16 +30,17 @@ from vlib import cli, gen_prog
 from ref import rzxref, snapdec
 
 PROPERTY = 'C20'
-RULE = ('Hypothesis draws a machine (48K/128K/+2), a main program (RZX-specific snippets: IN forms, HALT, EI/DI, IM 0/1/2 with a '
-        'vector table, LD A,I/R, LD R,A, prefix chains, paging/AY/border OUTs, counted loops dense in those, delay loops, plus '
-        'gen_prog instructions/templates) closed by a jump back, an IM 2 handler, background memory, registers, IFF/IM, initial T, '
-        'the port value stream (constant / per-frame pattern / random), 1..12 frames (<=60 thorough) whose T lengths are the '
-        'real frame duration or a drawn cycle of short lengths, the recording convention (playback flags 1 and 2), 1-3 input '
-        'recording blocks each preceded by a snapshot (flag 4 on/off), snapshot encodings (z80 v1/v2/v3 rle/raw, szx '
-        'compressed or not), RZX block compression and repeated-frame markers, recorder implementation (C/Python, plain/cmio). '
-        'Every recording is played by the C player, a third also by the Python player, stopped at every frame k (all k for <= 12 frames) '
-        'and resumed, in both snapshot formats. Non-trivial: >= 3 frames, >= 1 port reading and >= 1 accepted interrupt; '
-        'distinct = digest of the case.')
+RULE = ('Hypothesis draws a machine (48K/128K/+2), a main program closed by a jump back - either a mix of up to 20 (36 thorough) '
+        'RZX-specific snippets (IN forms, HALT, EI/DI, IM 0/1/2 with a vector table, LD A,I/R, LD R,A, prefix chains, paging/AY/border '
+        'OUTs, counted loops dense in those, delay loops, LDIR) or a short dense loop of the instructions the frame-end rules look '
+        'at - optionally salted with "wild" pieces (gen_prog instructions/templates/raw bytes, RET/RST, stack and I changes), an IM 2 '
+        'handler, background memory, registers, IFF/IM, initial T, the port value stream (constant / per-frame pattern / random), '
+        '1..12 frames (<=60 thorough) whose T lengths are the real frame duration or a drawn cycle of short lengths (100..6000 T), '
+        'the recording convention (playback flags 1 and 2), 1-3 input recording blocks each preceded by a snapshot (flag 4 on/off), '
+        'snapshot encodings (z80 v1/v2/v3 rle/raw, szx compressed or not), RZX block compression, repeated-frame markers, an unknown '
+        'block, and the recorder implementation (C/Python, plain/contended). Every recording is played by the C player in both '
+        'embedded formats, a third also by the Python player, stopped at every frame k (all k for <= 12 frames, <= 6 drawn k otherwise) '
+        'and resumed. Non-trivial: >= 3 frames, >= 1 port reading and >= 1 accepted interrupt; distinct = digest of the case.')
 ASSUMPTIONS = [
     'frame-end convention (rzxplay documentation, --flags help): an interrupt is accepted at the start of every frame except the first '
     'whenever IFF is set, whatever the last instruction was; a HALTed CPU is released (PC moves past the HALT); the same rule is applied '
@@ -766,7 +767,10 @@ def parse_rzxinfo(text):
             v = t.split(':', 1)[1].strip()
             frame['more'] = v.endswith('...')
             v = v[:-3] if frame['more'] else v
-            frame['readings'] = [int(x) for x in v.split(',')]
+            try:
+                frame['readings'] = [int(x) for x in v.split(',')]
+            except ValueError:
+                frame['readings'] = v        # not a list of integers: reported as a mismatch by the caller
         elif t.startswith(('Snapshot:', 'Creator information:', 'Unknown block')):
             cur = frame = None
     return blocks
@@ -807,6 +811,14 @@ def flat_frames(parsed):
     return out
 
 
+def z80v1_pc0(case, recording, k, fmt):
+    """F40 class: the recording embeds a version-1 .z80 snapshot (whose header cannot
+    express PC=0) and the CPU is at address 0 at frame boundary k: rzxplay --stop k
+    reuses the version-1 header for the snapshot it writes."""
+    return (fmt == 'z80' and case['z80ver'] == 1 and case['model'] == '48K' and case['base'] != 0
+            and recording.bounds[k - 1]['pc'] == 0)
+
+
 def check_part(case, recording, part, k, fmt, cmio, stop_variant):
     """The RZX file written by --stop k: remaining frames and embedded snapshot."""
     try:
@@ -836,7 +848,10 @@ def check_part(case, recording, part, k, fmt, cmio, stop_variant):
     try:
         st_ = snapdec.decode(sb['data'], fmt)
     except snapdec.FormatError as e:
-        raise Violation('part-snapshot-unreadable', '--stop %d: embedded %s snapshot not decodable: %s' % (k, fmt, e), case)
+        sig = 'part-snapshot-unreadable'
+        if z80v1_pc0(case, recording, k, fmt):
+            sig += ':z80v1-pc0'
+        raise Violation(sig, '--stop %d: embedded %s snapshot not decodable: %s' % (k, fmt, e), case)
     b = dict(recording.bounds[k - 1])
     skip = ['ram', 'memptr'] + (['tstates'] if cmio else [])
     if fmt != 'szx':
@@ -853,7 +868,7 @@ def check_part(case, recording, part, k, fmt, cmio, stop_variant):
 # ---------------------------------------------------------------------------
 # Oracle
 # ---------------------------------------------------------------------------
-def oracle(case, rec=None):
+def oracle(case, rec=None, avoid_known=True):
     case = dict(case)
     case['fmt_rec'] = case['fmt']
     recording = record(case)
@@ -927,6 +942,10 @@ def oracle(case, rec=None):
             # ---- (3) stop at k, write RZX, resume -------------------------------
             ref_irbs = None
             for k in stops:
+                if avoid_known and z80v1_pc0(case, recording, k, fmt):
+                    if rec is not None:
+                        rec.excluded['F40'] += 1
+                    continue
                 runs = [(False, rec_cmio)]
                 if fmt == primary and case['py'] and k == stops[(case['in_seed'] >> 3) % len(stops)]:
                     runs.append((True, rec_cmio))
@@ -993,7 +1012,7 @@ def oracle(case, rec=None):
 
 def plan(tier, seed):
     rzxref._selftest(False)
-    n = 320 if tier == 'quick' else 9600
+    n = 480 if tier == 'quick' else 16000
     nsh = 16 if tier == 'quick' else 64
     return [{'kind': 'hyp', 'tier': tier, 'n': n // nsh, 'seed': shard_seed(seed, PROPERTY, i)} for i in range(nsh)]
 
@@ -1003,7 +1022,16 @@ def run_shard(shard, rec):
 
 
 def replay(case):
-    oracle(case)
+    oracle(case, avoid_known=False)
+
+
+def known_class(sig, case):
+    # F40: rzxplay --stop writes the snapshot into the version-1 .z80 header it was given; when the CPU is at
+    # address 0 at that frame boundary the header says PC=0, which marks a version 2/3 file, and the written
+    # RZX file cannot be read back (IndexError in rzxplay/rzxinfo). Only this signature, only v1 48K recordings.
+    if sig == 'part-snapshot-unreadable:z80v1-pc0' and isinstance(case, dict) and case.get('z80ver') == 1 and case.get('model') == '48K':
+        return 'F40'
+    return None
 
 
 MANIFEST_ENTRY = {
